@@ -28,11 +28,11 @@ DKEYS = ['k', 'm', 'n', 'a.b', 'x y', 0, 1, -2, 'p[0]']
 SIMPLE = ['k', 'm', 'n', 0, 1, -2]
 
 LIST_MUT = ['append', 'insert', 'extend', 'pop', 'remove', 'del', 'delslice', 'set',
-            'setslice', 'sort', 'reverse', 'clear', 'iadd', 'imul', 'rebind', 'rebind2']
+            'setslice', 'sort', 'reverse', 'clear', 'iadd', 'imul', 'rebind', 'rebind2', 'rebind_nested']
 LIST_READ = ['getslice', 'get', 'add', 'mul', 'rmul', 'index', 'count', 'contains',
              'copy', 'len', 'iter', 'eq', 'reversed', 'sorted']
 DICT_MUT = ['dset', 'dsetattr', 'ddel', 'ddelattr', 'dpop', 'dpopd', 'popitem', 'update',
-            'setdefault', 'dclear', 'ior', 'setmissing', 'drebind', 'drebind2']
+            'setdefault', 'dclear', 'ior', 'setmissing', 'drebind', 'drebind2', 'rebind_nested']
 DICT_READ = ['dget', 'dgetitem', 'dgetattr', 'din', 'dlen', 'keys', 'values', 'items',
              'dcopy', 'deq', 'diter']
 
@@ -122,6 +122,14 @@ def _sortkey(x):
   return (type(p).__name__, repr(p))
 
 
+def _unalias(x):
+  if isinstance(x, list):
+    return [_unalias(e) for e in x]
+  if isinstance(x, dict):
+    return {k: _unalias(e) for k, e in x.items()}
+  return x
+
+
 def apply(x, op, sym):
   """Runs one op on `x` (a list holder [obj]); sym tells which side it is."""
   name = op['op']
@@ -209,6 +217,46 @@ def apply(x, op, sym):
     return [values.plain(e) for e in reversed(obj)]
   if name == 'sorted':
     return [values.plain(e) for e in sorted(obj, key=_sortkey)]
+  if name == 'rebind_nested':
+    # one path of two keys into the first nested list (replace / insert / delete there), with the notification
+    # that the write would send switched on, skipped by argument, or disabled by scope
+    if not sym:
+      # a symbolic container owns its members (`l *= 2` stores copies, the plain list the same object twice):
+      # the reference must not carry that aliasing into a nested write
+      fresh = _unalias(obj)
+      if isinstance(obj, list):
+        obj[:] = fresh
+      else:
+        obj.clear()
+        obj.update(fresh)
+    items = list(enumerate(obj)) if isinstance(obj, list) else list(obj.items())
+    where = [(p, e) for p, e in items if isinstance(e, list)]
+    if not where:
+      raise core.InvalidCase('skip')
+    p, inner = where[0]
+    q, mode, how = abs(i) % (len(inner) + 1), m % 3, (op.get('k2', 0) % 3)
+    if mode == 2 and q >= len(inner):
+      raise core.InvalidCase('skip')
+    if not sym:
+      if mode == 1 and q <= len(inner):
+        inner.insert(q, v)
+      elif mode == 2:
+        del inner[q]
+      elif q >= len(inner):
+        inner.append(v)
+      else:
+        inner[q] = v
+      return None
+    val = pg.Insertion(v) if mode == 1 else (pg.MISSING_VALUE if mode == 2 else v)
+    path = pg.KeyPath([p, q])
+    if how == 1:
+      obj.rebind({path: val}, skip_notification=True)
+    elif how == 2:
+      with pg.notify_on_change(False):
+        obj.rebind({path: val})
+    else:
+      obj.rebind({path: val})
+    return None
   if name in ('rebind', 'rebind2'):
     n = len(obj)
     idx = abs(i)
